@@ -33,7 +33,9 @@ HOSTILE = ["", " ", "a b", "  lead", "trail  ", "tab\tbed", "new\nline", "it's",
 LIT_OK = [s for s in HOSTILE if "$(" not in s and "${" not in s and "\\" not in s]
 PREFIXES = ["-p", "--opt", "--opt=", "-x y", "-'q", "--a b=", "$P", "-;", "+"]
 SEPS = [",", " ", ";", ":", "' '", ", ", "|", "$", "a b"]
-NAMES = ["a", "b", "c", "ab", "a1", "B", "Z", "x_y", "zz", "m", "aB", "k9"]
+# upper-case names (before and after "None", the str() of an argument's missing name), lower-case, underscore, digits inside;
+# digit-LEADING names are kept out: cwltool compares them with argument indexes as strings (outside tool_ok)
+NAMES = ["a", "b", "c", "ab", "a1", "B", "Z", "x_y", "zz", "m", "aB", "k9", "INPUT", "M", "Bam", "N", "None", "Nz", "_u"]
 # floats as a job file spells them (JSON numbers); Python's repr(float) reproduces only a few of them
 FLITS = ["0.00001", "2.50", "1e3", "1E3", "1e+3", "1.5e-3", "15e-1", "1.50e1", "0.0000001", "-0.0000001", "0.0", "-0.0",
          "100.0", "0.000000", "1e-7", "2.5e10", "-1.5E+2", "0.5", "3.14", "1e0", "5e-1", "1234567.125", "0.1e1", "1E-5",
